@@ -82,7 +82,9 @@ class ConfigNodeMeta(NamespaceableMeta):
                         if arg_name == 'priority' and value._is_composed():
                             for child in value.ayns.nodes():
                                 child._priority = kwargs[arg_name]
-                if any(k.startswith('implicit_') for k in kwargs.keys()):
+                if kwargs.get('safe') is False:
+                    value._safe = False # e.g. "!unsafe f'...'": the tagged value is already a node, the mark must still reach it
+                if any(k.startswith('implicit_') for k in kwargs.keys()) or kwargs.get('safe') is False:
                     value._propagate_implicit_values()
 
                 return value
